@@ -204,6 +204,10 @@ class Monitor:
         new description"""
         r = self.r
         t = self.B.build(di)
+        # the type has been in use before it is reconfigured (exported, printed, copied)
+        t.export_datatype()
+        repr(t)
+        t.copy()
         applied = []
         cand = list(nodes(t))
         rng.shuffle(cand)
@@ -231,8 +235,12 @@ class Monitor:
                 continue
             prop, fn = rng.choice(muts)
             try:
-                node.setProperty(prop, fn(node))
-                applied.append([list(path), f'{cls}.{prop}'])
+                if rng.random() < 0.4:
+                    setattr(node, prop, fn(node))          # "the preferred way": plain attribute assignment
+                    applied.append([list(path), f'{cls}.{prop} (assigned)'])
+                else:
+                    node.setProperty(prop, fn(node))
+                    applied.append([list(path), f'{cls}.{prop}'])
             except Exception:
                 pass
         if not applied:
